@@ -16,6 +16,9 @@
 (*   "acc"  second pass: ASTs that the real code RETURNED for inputs on    *)
 (*          which the spec only requires "rejected, or accepted as a       *)
 (*          well-formed MapSpec" are read back and judged by Violations    *)
+(*   "rec"  mechanism C: observations recorded from the real code on       *)
+(*          seeded random specs LARGER than the universes (rank <= 5,      *)
+(*          sizes <= 6, <= 4 inputs) are judged by the same operators      *)
 (*                                                                         *)
 (* A STRUCTURE is a MapSpec up to naming: [R |-> output rank, ins |->      *)
 (* sequence of axes tuples over the canonical index names i, j, k and ':'];*)
@@ -30,6 +33,7 @@ CONSTANTS Part, Shard, NShards,
           SortFrom,         \* with >= SortFrom inputs only non-decreasing input sequences (symmetry cut)
           MaxDim,           \* every index size ranges over 1..MaxDim ...
           BigIn, BigDim,    \* ... but over 1..BigDim for structures with >= BigIn inputs
+          MaxAxes, BigAxes, \* bound on the total number of input axes (structures with < / >= BigIn inputs)
           LawDim,           \* size of the axis added when checking LawAddAxesDenotes
           MutIn, MutRank,   \* "bad": base structures have <= MutIn inputs of rank <= MutRank
           TokIn, TokRank, TokR, TokMod   \* "tok": base structures: <= TokIn inputs, rank <= TokRank, output rank
@@ -73,6 +77,12 @@ InSeqs(R, n, maxrank) ==
         n >= SortFrom => \A p \in 1..(n - 1) : AxesCode(s[p]) <= AxesCode(s[p + 1])}
 Structs(maxin, maxrank, maxR) ==
     UNION {UNION {{[R |-> R, ins |-> s] : s \in InSeqs(R, n, maxrank)} : n \in 0..maxin} : R \in 1..maxR}
+AxesBound(n) == IF n >= BigIn THEN BigAxes ELSE MaxAxes
+RankCap(n)   == IF AxesBound(n) - (n - 1) < 3 THEN AxesBound(n) - (n - 1) ELSE 3     \* every input has rank >= 1
+AllStructs ==                      \* the structures of parts "sem" and "syn"
+    UNION {UNION {{[R |-> R, ins |-> s] : s \in {t \in InSeqs(R, n, RankCap(n)) :
+                        SeqSum([x \in DOMAIN t |-> Len(t[x])]) <= AxesBound(n)}}
+                  : n \in 0..MaxIn} : R \in 1..3}
 StructCode(s) == s.R + 3 * SeqSum([x \in DOMAIN s.ins |-> AxesCode(s.ins[x]) * (2 * x - 1)])
 InShard(s)    == StructCode(s) % NShards = Shard
 SchemeOf(s)   == ((StructCode(s) \div 7) % Len(Schemes)) + 1
@@ -113,7 +123,7 @@ MutShapes(insh, mu, md) ==
 MutInternal(int, mu) == IF mu.t = "intshort" THEN SubSeq(int, 1, Len(int) - 1) ELSE int
 
 SemCase(s, d, mu) ==
-    [kind |-> "sem", mut |-> mu.t, sch |-> SchemeOf(s),
+    [kind |-> "sem", mut |-> mu.t, sch |-> SchemeOf(s), ramp |-> d = Ramp(s),
      m |-> Named(s, Schemes[SchemeOf(s)], NOutOf(s)),
      insh |-> MutShapes(InShapes(s, d, DimBound(s)), mu, DimBound(s)),
      internal |-> MutInternal(InternalDims(s, d), mu)]
@@ -126,7 +136,7 @@ SemOut(c) ==
                   okeys |-> [l \in 1..N |-> OutputKey(c.m, ext, l - 1)],       \* element l: linear index l-1
                   ikeys |-> [l \in 1..N |-> InputKeys(c.m, ext, l - 1)]]
         ELSE [shape |-> sh, ext |-> <<>>, n |-> 0, okeys |-> <<>>, ikeys |-> <<>>]
-InitSem == \E s \in {x \in Structs(MaxIn, 3, 3) : InShard(x)} :
+InitSem == \E s \in {x \in AllStructs : InShard(x)} :
              \E d \in [1..s.R -> 1..DimBound(s)] :
                \E mu \in ShapeMuts(s, d) :
                   /\ case = SemCase(s, d, mu)
@@ -157,7 +167,7 @@ SynOut(m, sch) ==
                  LET axs == AddArgs(m, sch)[q]
                      ok  == AddAxesAccepted(m, axs, Lex)
                  IN  [axs |-> axs, ok |-> ok, ms |-> IF ok THEN AddAxes(m, axs) ELSE NoMapSpec]]]
-InitSyn == \E s \in {x \in Structs(MaxIn, 3, 3) : InShard(x)} :
+InitSyn == \E s \in {x \in AllStructs : InShard(x)} :
              \E q \in DOMAIN Schemes : \E no \in 1..2 :
                 /\ case = [kind |-> "syn", sch |-> q, m |-> Named(s, Schemes[q], no)]
                 /\ out = SynOut(case.m, Schemes[q])
@@ -177,6 +187,10 @@ AstMuts(m, sch) ==
         mu \in {p \in (DOMAIN m.ins) \X (1..3) : p[2] <= Rank(m.ins[p[1]])}}
     \cup {[t |-> "colon_out", m |-> SetOut(m, mu[1], SetAxis(m.outs[mu[1]], mu[2], COLON))] :
         mu \in {p \in (DOMAIN m.outs) \X (1..3) : p[2] <= Rank(m.outs[p[1]])}}
+    \cup {[t |-> "colon_extra_axis", m |-> SetOut(m, mu[1], SetAxes(m.outs[mu[1]],
+                                                  SubSeq(m.outs[mu[1]].axes, 1, mu[2] - 1) \o <<COLON>>
+                                                  \o SubSeq(m.outs[mu[1]].axes, mu[2], Rank(m.outs[mu[1]]))))] :
+        mu \in {p \in (DOMAIN m.outs) \X (1..4) : p[2] <= Rank(m.outs[p[1]]) + 1}}     \* y[i], z[i, :]
     \cup (IF Len(m.outs) < 2 THEN {}
           ELSE UNION {
             (IF Rank(m.outs[o]) >= 2
@@ -215,6 +229,8 @@ TokMuts(t) ==
               mu \in {p \in (DOMAIN t) \X ReplTokens : t[p[1]] # p[2]}}
     \cup {[t |-> "insert", toks |-> Insert(t, mu[1], mu[2])] : mu \in (1..(Len(t) + 1)) \X InsTokens}
     \cup {[t |-> "ws", toks |-> Insert(t, i, WS)] : i \in 1..(Len(t) + 1)}      \* tolerated or `a [i]`
+    \cup {[t |-> "extra_axis", toks |-> SubSeq(t, 1, mu[1] - 1) \o <<",", mu[2]>> \o SubSeq(t, mu[1], Len(t))] :
+              mu \in {p \in (DOMAIN t) \X {COLON, "b"} : t[p[1]] = "]"}}         \* a[i] -> a[i,:] / a[i,b]
 TokOut(toks) ==
     LET p == ParseMS(toks, Lex)
     IN  [ok |-> p.ok, ms |-> p.ms,
@@ -236,11 +252,33 @@ InitAcc == \E i \in DOMAIN AccFile :
                                            Lexicon(SeqElems(AccFile[i].idents), SeqElems(AccFile[i].scoped)))]
 
 ---------------------------------------------------------------------------
+(* Part "rec": one JSON line per recorded MapSpec: {id, ms, idents, scoped, insh, internal, built,   *)
+(* shape_ok, shape, mask, obs: [{l, okey, ikeys}]}: what the constructor, shape(), output_key(),      *)
+(* input_keys() did (built / shape_ok = FALSE: raised; a key <<-2>>: raised).  out names the          *)
+(* observations the spec rejects.                                                                     *)
+RecFile == IF Part = "rec" THEN ndJsonDeserialize(IOEnv.ACC_FILE) ELSE <<>>
+RecVerdict(r) ==
+    LET L  == Lexicon(SeqElems(r.idents), SeqElems(r.scoped))
+        sh == Shape(r.ms, r.insh, r.internal)
+    IN  IF ~(WellFormed(r.ms, L) /\ Regular(r.ms)) THEN {"generator: not a regular well-formed MapSpec"}
+        ELSE IF ~r.built THEN {"__init__: a well-formed MapSpec was refused"}
+        ELSE (IF sh.ok # r.shape_ok THEN {"shape: raised / returned"} ELSE {})
+             \cup (IF sh.ok /\ r.shape_ok /\ (sh.shape # r.shape \/ sh.mask # r.mask) THEN {"shape: value"} ELSE {})
+             \cup (IF sh.ok /\ \E q \in DOMAIN r.obs : OutputKey(r.ms, ExtShape(sh), r.obs[q].l) # r.obs[q].okey
+                   THEN {"output_key"} ELSE {})
+             \cup (IF sh.ok /\ \E q \in DOMAIN r.obs : InputKeys(r.ms, ExtShape(sh), r.obs[q].l) # r.obs[q].ikeys
+                   THEN {"input_keys"} ELSE {})
+InitRec == \E i \in DOMAIN RecFile :
+              /\ case = [kind |-> "rec", id |-> RecFile[i].id]
+              /\ out = [why |-> RecVerdict(RecFile[i])]
+
+---------------------------------------------------------------------------
 Init == \/ Part = "sem" /\ InitSem
         \/ Part = "syn" /\ InitSyn
         \/ Part = "bad" /\ InitBad
         \/ Part = "tok" /\ InitTok
         \/ Part = "acc" /\ InitAcc
+        \/ Part = "rec" /\ InitRec
 Next == FALSE                      \* every case is an initial state (deadlock checking is off)
 Spec == Init /\ [][Next]_vars
 
@@ -261,10 +299,10 @@ InvAddAxes     == IsSyn => \A q \in DOMAIN out.add : /\ LawAddAxes(case.m, out.a
 InvShape       == IsSem => LawShape(case.m, case.insh, case.internal)
 InvOutputKey   == (IsSem /\ out.shape.ok) => LawOutputKeyBijection(case.m, out.ext)
 InvInputKeys   == (IsSem /\ out.shape.ok) => LawInputKeysSelect(case.m, case.insh, out.ext)
-InvRenameDenotes == (IsSem /\ case.mut = "none") =>
+InvRenameDenotes == (IsSem /\ case.ramp /\ case.mut = "none") =>
     \A q \in DOMAIN RenameArgs(case.m, Schemes[case.sch]) :
         LawRenameDenotes(case.m, RenameArgs(case.m, Schemes[case.sch])[q], case.insh, case.internal)
-InvAddAxesDenotes == (IsSem /\ case.mut = "none") =>
+InvAddAxesDenotes == (IsSem /\ case.ramp /\ case.mut = "none") =>
     LawAddAxesDenotes(case.m, <<Schemes[case.sch].fresh[1]>>, case.insh, case.internal, <<LawDim>>)
 
 Emit == PrintT(<<"CASE", ToJson([c |-> case, o |-> out])>>)
